@@ -357,6 +357,33 @@ pub fn run(tier: Tier) -> i32 {
                     }
                 }
             }
+            // strings whose leading digits sit right at the overflow limit of the type (MAX/100, MAX/10 and neighbours),
+            // followed by every possible last byte (decimal, F-padded and non-decimal nibbles alike)
+            for ty in TYS {
+                let max = tymax(ty);
+                for (div, _pad) in [(100u64, false), (10, true)] {
+                    for d in [-2i64, -1, 0, 1] {
+                        let base = (max / div) as i128 + d as i128;
+                        if base < 0 {
+                            continue;
+                        }
+                        let prefix = bcd_digits(base as u64);
+                        for lead in [false, true] {
+                            for last in 0..=255u8 {
+                                let mut b = if lead { vec![0u8] } else { vec![] };
+                                b.extend(&prefix);
+                                b.push(last);
+                                let r = check_bcd_digits(ty, &b);
+                                if r.is_err() {
+                                    ctx.record(r, st);
+                                }
+                            }
+                        }
+                    }
+                }
+            }
+            st.enumerated(5 * 2 * 4 * 2 * 256, 5 * 2 * 4 * 2 * 256);
+            st.class_n("bcd-digits:near-limit-prefix-x-every-last-byte", 5 * 2 * 4 * 2 * 256);
             // every 1- and 2-byte string exhaustively (strict and non-strict alike)
             for a in 0..=255u8 {
                 for ty in TYS {
